@@ -506,6 +506,43 @@ pub fn near_misses(rng: &mut Rng) -> Vec<(&'static str, Module)> {
         m.actions.push(ActionDef { name: "actx".into(), params: vec![], body: vec![Stmt::Raw(stmt.into())] });
         out.push((leak(format!("{what}-in-action")), m));
     }
+    // Second family: the other half of the mechanism. Expressions inside finish statements must be
+    // infallible, wherever they are nested, because a panic there would come after earlier writes
+    // of the same finish block. Each program first creates a fact and then uses a pure function
+    // that panics for arguments <= 0 in one nesting position of a later finish statement.
+    let fallible = [
+        ("emit-field", "emit Ef0 { e0: fx(this.c0) }"),
+        ("emit-field-in-some", "emit Ef1 { o0: Some(fx(this.c0)) }"),
+        ("emit-field-in-nested-some", "emit Ef2 { oo0: Some(Some(fx(this.c0))) }"),
+        ("create-key", "create Fa0[k0: fx(this.c0)]=>{w0: 2}"),
+        ("create-value", "create Fa0[k0: 7]=>{w0: fx(this.c0)}"),
+        ("create-value-in-some", "create Fa1[k0: 7]=>{ow0: Some(fx(this.c0))}"),
+        ("update-to", "update Fa0[k0: 1] to {w0: fx(this.c0)}"),
+        ("delete-key", "delete Fa0[k0: fx(this.c0)]"),
+        ("finish-call-arg", "ff0(fx(this.c0))"),
+        ("emit-struct-field-access", "emit Ef0 { e0: Ef0 { e0: fx(this.c0) }.e0 }"),
+        ("emit-todo-in-some", "emit Ef1 { o0: Some(todo()) }"),
+    ];
+    for (what, stmt) in fallible {
+        let mut m = mk(rng);
+        m.structs.push(StructDef { name: "Ef1".into(), fields: vec![("o0".into(), Ty::Opt(Box::new(Ty::Int)))], insert_base: None, kind: StructKind::Effect });
+        m.structs.push(StructDef { name: "Ef2".into(), fields: vec![("oo0".into(), Ty::Opt(Box::new(Ty::Opt(Box::new(Ty::Int)))))], insert_base: None, kind: StructKind::Effect });
+        m.structs.push(StructDef { name: "Fa1".into(), fields: vec![("k0".into(), Ty::Int), ("ow0".into(), Ty::Opt(Box::new(Ty::Int)))], insert_base: None, kind: StructKind::FactMirror });
+        m.facts.push(FactDef { name: "Fa1".into(), keys: vec![("k0".into(), Ty::Int)], vals: vec![("ow0".into(), Ty::Opt(Box::new(Ty::Int)))], immutable: false });
+        m.funcs.push(FuncDef { name: "fx".into(), params: vec![("x".into(), Ty::Int)], ret: Ty::Int, body: vec![Stmt::Raw("if x > 0 { return x }".into()), Stmt::Raw("return todo()".into())] });
+        m.commands[0].policy = vec![Stmt::Raw(format!("finish {{ create Fa0[k0: 99]=>{{w0: 1}} {stmt} }}"))];
+        out.push((leak(format!("fallible-{what}-in-finish")), m));
+        // and the same inside a finish function called from the finish block
+        let mut m2 = mk(rng);
+        m2.structs.push(StructDef { name: "Ef1".into(), fields: vec![("o0".into(), Ty::Opt(Box::new(Ty::Int)))], insert_base: None, kind: StructKind::Effect });
+        m2.structs.push(StructDef { name: "Ef2".into(), fields: vec![("oo0".into(), Ty::Opt(Box::new(Ty::Opt(Box::new(Ty::Int)))))], insert_base: None, kind: StructKind::Effect });
+        m2.structs.push(StructDef { name: "Fa1".into(), fields: vec![("k0".into(), Ty::Int), ("ow0".into(), Ty::Opt(Box::new(Ty::Int)))], insert_base: None, kind: StructKind::FactMirror });
+        m2.facts.push(FactDef { name: "Fa1".into(), keys: vec![("k0".into(), Ty::Int)], vals: vec![("ow0".into(), Ty::Opt(Box::new(Ty::Int)))], immutable: false });
+        m2.funcs.push(FuncDef { name: "fx".into(), params: vec![("x".into(), Ty::Int)], ret: Ty::Int, body: vec![Stmt::Raw("if x > 0 { return x }".into()), Stmt::Raw("return todo()".into())] });
+        m2.finish_funcs.push(FinishFuncDef { name: "ffx".into(), params: vec![("q0".into(), Ty::Int)], body: vec![Stmt::Raw(stmt.replace("this.c0", "q0"))] });
+        m2.commands[0].policy = vec![Stmt::Raw("finish { create Fa0[k0: 99]=>{w0: 1} ffx(this.c0) }".into())];
+        out.push((leak(format!("fallible-{what}-in-finish-function")), m2));
+    }
     out
 }
 
